@@ -586,9 +586,70 @@ type simScanState struct {
 	peek  int
 	deep  bool
 	sizes []int
+	// volatile: Token returns a window of storage the peer owns and
+	// overwrites on the next ReadRune, SkipSpace or Token ("the returned slice
+	// points to shared data that may be overwritten by the next call to Read,
+	// ReadRune, or Token", says the interface)
+	volatile bool
+	tokbuf   []byte
+}
+
+// clobber overwrites the storage of the last token (volatile peers).
+func (s *simScanState) clobber() {
+	for i := range s.tokbuf {
+		s.tokbuf[i] = '9'
+	}
+}
+
+// simScanStatePeek is the same peer for callers that look for more than the
+// six methods of the interface: a ScanState that embeds a *bufio.Reader also
+// has Peek and Discard, with bufio's behaviour for a small buffer (a short
+// window and bufio.ErrBufferFull when more is asked for than the buffer
+// holds, io.EOF only at the end of the input).
+type simScanStatePeek struct {
+	*simScanState
+	size int
+}
+
+func (s simScanStatePeek) Peek(n int) ([]byte, error) {
+	if n < 0 {
+		return nil, bufio.ErrNegativeCount
+	}
+	avail := len(s.data) - s.pos
+	if s.errAt >= s.pos && !s.fired && s.errAt-s.pos < avail {
+		avail = s.errAt - s.pos
+	}
+	var err error
+	k := n
+	if k > s.size {
+		k, err = s.size, bufio.ErrBufferFull
+	}
+	if k > avail {
+		k = avail
+		if s.pos+k >= len(s.data) {
+			err = io.EOF
+		} else if err == nil {
+			err = InjectedErr(s.errK)
+		}
+	}
+	return s.data[s.pos : s.pos+k : s.pos+k], err
+}
+
+func (s simScanStatePeek) Discard(n int) (int, error) {
+	b, err := s.Peek(n)
+	s.pos += len(b)
+	s.last = 0
+	s.sizes = nil
+	if len(b) == n {
+		err = nil
+	}
+	return len(b), err
 }
 
 func (s *simScanState) ReadRune() (rune, int, error) {
+	if s.volatile {
+		s.clobber()
+	}
 	if s.pos == s.errAt && !s.fired {
 		s.fired = true
 		return 0, 0, InjectedErr(s.errK)
@@ -632,6 +693,16 @@ func (s *simScanState) SkipSpace() {
 }
 
 func (s *simScanState) Token(skipSpace bool, f func(rune) bool) ([]byte, error) {
+	tok, err := s.token(skipSpace, f)
+	if s.volatile {
+		// (the runes were read before the window was filled)
+		s.tokbuf = append(s.tokbuf[:0], tok...)
+		return s.tokbuf[:len(tok):len(tok)], err
+	}
+	return tok, err
+}
+
+func (s *simScanState) token(skipSpace bool, f func(rune) bool) ([]byte, error) {
 	s.tokens++
 	if skipSpace {
 		s.SkipSpace()
@@ -671,10 +742,14 @@ func init() {
 	// I[2] = receiver slot. Calls Decimal.Scan directly with a
 	// simulator-owned fmt.ScanState.
 	reg("ScanState", func(x *Ctx, op *Op, r *Result) {
-		st := &simScanState{data: op.bytes(0), errAt: int(op.int(1)), errK: int(op.int(3)), peek: int(op.int(4) & 3), deep: op.int(4)&4 != 0}
+		st := &simScanState{data: op.bytes(0), errAt: int(op.int(1)), errK: int(op.int(3)), peek: int(op.int(4) & 3), deep: op.int(4)&4 != 0, volatile: op.int(4)&8 != 0}
+		var peer fmt.ScanState = st
+		if op.int(4)&16 != 0 {
+			peer = simScanStatePeek{st, []int{16, 32, 64}[int(op.int(4)>>5)%3]}
+		}
 		d := x.recv(op.int(2))
 		x.call(r, func() {
-			err := d.Scan(st, rune(op.int(0)))
+			err := d.Scan(peer, rune(op.int(0)))
 			r.err(err)
 			r.dec(*d)
 			r.bool(st.fired)
